@@ -27,6 +27,7 @@ package exported
 
 // verif:iface ClientState.GetLatestHeight()
 //@ names [fn] result == latestHeightOf(recv)
+//@ ensures [non-nil] result != nil
 
 // verif:iface ConsensusState.ClientType()
 //@ names [fn] result == consTypeOf(recv)
